@@ -50,6 +50,14 @@ CLAIMED = {
    technique="bounded-exhaustive enumeration of every tile size for every image size <= 8x8 crossed with components, precision, levels, layers, plus structured larger grids, through jpeg2000.Encoder/Decoder",
    text="Every (w,h) <= 8x8 x every (TileWidth,TileHeight) in [1..w]x[1..h] (1296 grids) x components {1,3} x P {8,12,16} x levels {0,1,2,5} x layers {1,2,3 with global PCRD + final lossless layer} x {position-coded ramp, noise}; larger sizes with 1..8 tiles per axis, odd tile sizes, last tile 1 sample wide. Failures are classified by an explicit layout predicate so that only the recorded coordinate-system defect is suppressed.",
    note="Known finding (not repaired: needs a rewrite of tile coordinate handling in encoder and packet decoder): tile grids whose tile-local and global layouts differ. The check still fails on any violation among layout-equivalent grids."),
+ "C05": dict(engine="E1 space via registry", design="§4 C05",
+   technique="bounded-exhaustive enumeration of the accepted parameter product (Rate x RateLevels x TargetRatio x NumLayers x PCRD x AppendLosslessLayer, typed/generic/nil) and of geometry x format products through the registered .90/.92 codecs",
+   text="Rate group: full product of 6 rates x 5 ladders x 5 ratios x 4 layer counts x PCRD x Append filtered by the property's admission rule, passed as typed JPEG2000LosslessParameters and as generic BaseParameters with the same keys, over 14+ sizes (incl. smaller than a code-block), 4 formats, 2 contents. Geometry group: NumLevels {0,1,5,6} x progression 0..4 x AllowMCT x 3 rate variants x 100 sizes x 6 formats x SPP {1,3}, multi-frame; nil parameters over every size/format. Oracle: every decoded frame byte-identical to its source.",
+   note="Quick keeps 1/7 resp. 1/5 of each product by rotation; thorough runs the full products. Sample-domain convention of the property."),
+ "C12": dict(engine="E1 space + analytic oracle", design="§4 C12",
+   technique="bounded-exhaustive enumeration of irreversible configurations with a per-sample bound derived from the QCD parsed out of each stream and exact L1 synthesis gains from an independent Annex F 9/7 inverse",
+   text="Sizes 1..16^2 x components x P {8,12,16} x signed x quality {1,10,50,80,90,100} x levels 0..6 x code-block {16,32,64} x 5 contents (rotated sub-product), every quality 1..100 at two sizes, larger sizes. bound(x,y) = sum_b delta_b G_b(x,y) + 2 (RGB via |ICT^-1| rows + 5); G_b computed by impulse responses of an independent float64 9/7 inverse that is validated for perfect reconstruction in every run. The bound is tight enough to expose a 3.3e-5 gain error in the library's inverse transform.",
+   note="Allowance 2/5 fixed before the first run. Contents are a finite family. One known finding (int32 overflow at 16-bit, 6 levels, quality ~100)."),
 }
 NOT_APPLICABLE = {}
 
